@@ -361,7 +361,11 @@ func (g *tgen) ty(depth int) *tty {
 	case r < 68:
 		return &tty{k: tSet, key: &tty{k: pick(tKeys)}}
 	case r < 76:
-		return &tty{k: tMap, key: &tty{k: pick(tKeys)}, elem: g.ty(depth + 1)}
+		e := g.ty(depth + 1)
+		for zeroSize(e) { // map[K]struct{} is the package's representation of a SET
+			e = g.ty(depth + 1)
+		}
+		return &tty{k: tMap, key: &tty{k: pick(tKeys)}, elem: e}
 	case r < 90:
 		return g.structType(depth + 1)
 	}
@@ -645,4 +649,16 @@ func tvalFromSx(t *tty, x *sx) *tval {
 		}
 	}
 	return v
+}
+
+func zeroSize(t *tty) bool {
+	if t.k != tStruct {
+		return false
+	}
+	for _, f := range t.fields {
+		if !zeroSize(f.t) {
+			return false
+		}
+	}
+	return true
 }
